@@ -73,6 +73,18 @@ TraceNext ==
      \/ Ev.ev = "ComputeEnergy" /\ ComputeEnergy /\ UNCHANGED written
      \/ Ev.ev = "BuildRate" /\ BuildRate /\ Check(RateClause(Ev)) /\ UNCHANGED written
      \/ Ev.ev = "Decompose" /\ Decompose /\ Check(EigClause(Ev)) /\ UNCHANGED written
+     \/ Ev.ev = "Simulate" /\ Simulate /\ UNCHANGED written
+     \/ Ev.ev = "Assign" /\ Assign /\ UNCHANGED written
+                         /\ Check(IF Ev.err # "" THEN "exception:" \o Ev.err
+                                  ELSE IF Ev.got # Ev.truth THEN "frames are not assigned to the cells they were placed in" ELSE "ok")
+     \/ Ev.ev = "BuildMsm" /\ BuildMsm /\ UNCHANGED written
+                           /\ Check(IF Ev.err # "" THEN "exception:" \o Ev.err
+                                    ELSE IF Ev.rowsum9 > 1000 THEN "rows of visited cells do not sum to one"
+                                    ELSE IF Ev.asym9 > 1000 THEN "detailed balance w.r.t. visit counts fails" ELSE "ok")
+     \/ Ev.ev = "DecomposeMsm" /\ Decompose /\ UNCHANGED written
+                               /\ Check(IF Ev.err # "" THEN "exception:" \o Ev.err
+                                        ELSE IF Ev.lam1_9 > 1000 THEN "largest eigenvalue of the MSM is not 1"
+                                        ELSE IF Ev.spread6 > 10 THEN "stationary vector is not proportional to the visit counts" ELSE "ok")
   /\ l' = l + 1
   /\ TLCSet(1, l)
 TraceSpec == TraceInit /\ [][TraceNext]_tvars
